@@ -259,6 +259,7 @@ func shapeOf(s recSource, seq gts.Sequence) string {
 }
 
 func (x *c01Run) exec() {
+	core.Tick()
 	sc := x.sc
 	res := x.res
 	n := len(sc.Records)
